@@ -396,11 +396,19 @@ namespace via
 
     /// Disconnect the underlying connection.
     void disconnect()
-    { connection_.lock()->disconnect(); }
+    {
+      std::shared_ptr<connection_type> tcp_pointer(connection_.lock());
+      if (tcp_pointer)
+        tcp_pointer->disconnect();
+    }
 
     /// Close the underlying connection.
     void close()
-    { connection_.lock()->close(); }
+    {
+      std::shared_ptr<connection_type> tcp_pointer(connection_.lock());
+      if (tcp_pointer)
+        tcp_pointer->close();
+    }
 
     /// Accessor function for the comms connection.
     /// @return a weak pointer to the connection
